@@ -355,7 +355,7 @@ func c08(run *core.Run, replay string) {
 					modes = append(modes, "partial")
 				}
 				for _, m := range modes {
-					if edge && m != "transient" && m != "sticky" {
+					if edge && m == "partial" {
 						continue
 					}
 					cases = append(cases, &fiCase{R: recs[ri], Side: "sink", K: k, Mode: m, Jobs: j, WriteN: wc})
